@@ -390,3 +390,10 @@ Proof.
     rewrite (within_mono sl _ _ T B1), B2, !N.eqb_refl. reflexivity.
   - reflexivity.
 Qed.
+
+Lemma store_source_shape :
+  blockClientReservations =
+    ["blockSeriesClient.ExpandPostings: seriesLimiter.Reserve(uint64(len(b.lazyPostings.postings)))";
+     "blockSeriesClient.nextBatch: b.chunksLimiter.Reserve(uint64(len(b.chkMetas)))";
+     "blockSeriesClient.nextBatch: b.seriesLimiter.Reserve(uint64(seriesMatched))"]%string.
+Proof. reflexivity. Qed.
